@@ -219,7 +219,10 @@ theorem abortObserve_spec (ok : g.Ok) (h : Rel g c lv w) (s : Nat) (hm : s ∈ c
     · exact h.canLt i hi
     · exact hs
 
-theorem newObserver_spec (ok : g.Ok) (h : Rel g c lv w) {nf : Nat → Data → Prog} {ef : Nat → Nat → Prog}
+/-- `new_observer` while the subscriber is still subscribed (the only way the recovery operators call it: at
+    subscription time and inside the error closure of a live upstream): the re-check added at the end of
+    `new_observer` sees a live subscriber and keeps the registration. -/
+theorem newObserver_spec (ok : g.Ok) (h : Rel g c lv w) (ha : c.alive = true) {nf : Nat → Data → Prog} {ef : Nat → Nat → Prog}
     {cf : Nat → Prog} {k : Nat → Prog} {Q : World → Prop}
     (hnf : nf c.serial = g.hn c.serial) (hef : ef c.serial = g.he c.serial) (hcf : cf c.serial = g.hc c.serial)
     (hk : ∀ w', Rel g c.newObserver.2 (fun j => j == c.serial || lv j) w' → WP (k (g.up c.serial)) w' Q) :
@@ -239,23 +242,71 @@ theorem newObserver_spec (ok : g.Ok) (h : Rel g c lv w) {nf : Nat → Data → P
   have e2 : w.obs.length = g.up c.serial := hr.obsLen
   rw [e2, amapInsert_mapD g _ _ (fun i hi => by have := h.regLt i (by simpa using hi); omega)]
   refine wp_cellWrite (by exact hr.held) ?_
-  apply hk
-  refine ⟨?_, ?_, ?_, ?_⟩
-  · have := hr.newObs ok
-    simpa [Ctl.newObserver, xU] using this
-  · intro i hi
-    have hlt : i < c.serial := h.canLt i hi
-    have : (i == c.serial) = false := by simp; omega
-    simp [this, h.dead i hi]
-  · intro i hi
-    simp only [Ctl.newObserver, List.mem_cons] at hi
-    show i < c.serial + 1
-    rcases hi with rfl | hi
-    · omega
-    · have := h.regLt i hi; omega
-  · intro i hi
-    show i < c.serial + 1
-    have := h.canLt i hi; omega
+  have hrel : Rel g c.newObserver.2 (fun j => j == c.serial || lv j)
+      { w with
+        obs := w.obs ++ [xU g c.serial true]
+        cells := ((w.cells.set g.cs (.int ((c.serial : Int) + 1))).set g.cm
+          (mapD g (c.registered.reverse ++ [c.serial]))) } := by
+    refine ⟨?_, ?_, ?_, ?_⟩
+    · have := hr.newObs ok
+      simpa [Ctl.newObserver, xU] using this
+    · intro i hi
+      have hlt : i < c.serial := h.canLt i hi
+      have : (i == c.serial) = false := by simp; omega
+      simp [this, h.dead i hi]
+    · intro i hi
+      simp only [Ctl.newObserver, List.mem_cons] at hi
+      show i < c.serial + 1
+      rcases hi with rfl | hi
+      · omega
+      · have := h.regLt i hi; omega
+    · intro i hi
+      show i < c.serial + 1
+      have := h.canLt i hi; omega
+  have hrep := hrel.rep
+  have ha' : c.newObserver.2.alive = true := ha
+  rw [ha'] at hrep
+  refine rep_isSubR hrep ?_
+  simp only [↓reduceIte]
+  exact hk _ hrel
+
+/-- `new_observer` called when the subscriber has ALREADY ended (no recovery operator over a passive subscriber
+    ever does that — every call site above carries `c.alive = true` — so the pure mirror `Ctl.newObserver` has no
+    such case): the re-check at the end of `new_observer` takes the registration back and unsubscribes the new
+    observer, so that `Obsv.sub` will not start the source on it.  Serial consumed, map unchanged. -/
+theorem newObserver_dead_rep (ok : g.Ok) (hl : ∀ i ∈ reg, i < n) (h : Rep g false lv n reg [] cv out w)
+    {nf : Nat → Data → Prog} {ef : Nat → Nat → Prog} {cf : Nat → Prog} {k : Nat → Prog} {Q : World → Prop}
+    (hnf : nf n = g.hn n) (hef : ef n = g.he n) (hcf : cf n = g.hc n)
+    (hk : ∀ w', Rep g false (fun j => j != n && (j == n || lv j)) (n + 1) reg [] cv out w' →
+      WP (k (g.up n)) w' Q) :
+    WP (g.sc.newObserver nf ef cf k) w Q := by
+  simp only [Sctl.newObserver, sc_serial, sc_map, sc_sub]
+  refine wp_cellRead (by exact h.held) ?_
+  rw [h.serial]
+  simp only [Option.getD_some, toNat_int, hnf, hef, hcf]
+  refine wp_cellWrite (by exact h.held) ?_
+  apply wp_obsNew
+  refine wp_cellRead (by exact h.held) ?_
+  have e1 : ((w.cells.set g.cs (Data.int ((n : Int) + 1)))[g.cm]?).getD .unit = mapD g reg := by
+    rw [set_get_other _ ok.sm, h.map]; rfl
+  simp only [e1]
+  have e2 : w.obs.length = g.up n := h.obsLen
+  rw [e2, amapInsert_mapD g _ _ (fun i hi => by have := hl i hi; omega)]
+  refine wp_cellWrite (by exact h.held) ?_
+  have h1 : Rep g false (fun j => j == n || lv j) (n + 1) (reg ++ [n]) [] cv out
+      { w with
+        obs := w.obs ++ [xU g n true]
+        cells := ((w.cells.set g.cs (.int ((n : Int) + 1))).set g.cm (mapD g (reg ++ [n]))) } := h.newObs ok
+  refine rep_isSubR (by simpa [xU] using h1) ?_
+  simp only [Bool.false_eq_true, ↓reduceIte]
+  refine rep_readMap (by simpa [xU] using h1) (Or.inr rfl) ?_
+  have e3 : (reg ++ [n]).filter (· != n) = reg := by
+    rw [List.filter_append, List.filter_eq_self.2 (fun i hi => by have := hl i hi; simp; omega)]
+    simp
+  rw [amapRemove_mapD, e3]
+  refine rep_writeMap ok (by simpa [xU] using h1) (Or.inr rfl) ?_
+  intro w2 h2
+  exact rep_unsubU h2 (Nat.lt_succ_self n) hk
 
 end macros
 end Rx.RetryRef
@@ -264,3 +315,4 @@ end Rx.RetryRef
 #print axioms Rx.RetryRef.sinkComplete_spec
 #print axioms Rx.RetryRef.abortObserve_spec
 #print axioms Rx.RetryRef.newObserver_spec
+#print axioms Rx.RetryRef.newObserver_dead_rep
